@@ -21,8 +21,8 @@ from simkit.world import World
 PROP = "C12"
 LEVEL = "exploration"
 TIERS = {
-    "quick": dict(runs=3000, timeout=300, max_ops=20, shrink_seconds=120, shrink_steps=250),
-    "thorough": dict(runs=80000, timeout=600, max_ops=40, shrink_seconds=400, shrink_steps=800),
+    "quick": dict(runs=3000, wall_cap=240, timeout=300, max_ops=20, shrink_seconds=120, shrink_steps=250),
+    "thorough": dict(runs=80000, wall_cap=2700, timeout=600, max_ops=40, shrink_seconds=400, shrink_steps=800),
 }
 
 SHAPES = ["scalar", "list", "lol", "loo", "obj"]
